@@ -83,7 +83,14 @@ def run_for(prop):
     if not ms:
         return []
     base = baseline(prop)
-    return [run_mutant(p, h, base) for p, h in ms]
+    import concurrent.futures as cf
+    workers = int(os.environ.get("VERIF_JOBS", "8"))
+    with cf.ProcessPoolExecutor(max_workers=workers) as ex:
+        return list(ex.map(_run_one, [(p, h, base) for p, h in ms]))
+
+
+def _run_one(a):
+    return run_mutant(*a)
 
 
 def main(argv):
